@@ -16,6 +16,8 @@
  *   (ADDRXLAT_ERR_NODATA with its "No ... callback" message left in this very context,
  *   no implementation ran), "?<status>" otherwise.
  *
+ *   line "L <n> <ostype|-> <dump file> <kvaddr>...": a dump object with n empty layers stacked on its
+ *   translation context before the file is opened; prints attributes, reads and hook answers (see below).
  *   line "K <dump file>": the translation context of a kdump_ctx_t that has the file open; the answers of all seven hooks before
  *   adding a layer, with an extra layer that overrides nothing, and after deleting it:
  *   "<7 answers> | <7 answers> | <7 answers>".
@@ -114,6 +116,92 @@ int main(int argc, char **argv)
 		char *save = NULL, *tok;
 		addrxlat_ctx_t *ctx;
 		int nl = 0, first = 1, i;
+		if (line[0] == 'L') {
+			/* L <n> <ostype|-> <dump file> <kvaddr> ...: a dump object with n layers that
+			 * override nothing stacked on its translation context BEFORE the file is opened
+			 * and the OS type set; prints what the application can observe of operations
+			 * that make the libraries themselves invoke the hooks */
+			static const char *const akeys[] = {
+				"linux.uts.sysname", "linux.uts.nodename", "linux.uts.release",
+				"linux.uts.version", "linux.uts.machine", "linux.uts.domainname",
+				"linux.version_code", "linux.phys_base", "xen.phys_start", "xen.version_code",
+				"cpu.0.reg.rip", "cpu.0.reg.pc", "arch.name", "arch.page_size",
+			};
+			char *sv = NULL, *nstr, *ost, *path, *a;
+			kdump_ctx_t *k = kdump_new();
+			kdump_status st;
+			kdump_attr_t attr;
+			unsigned i;
+			int n, fd;
+			strtok_r(line, " ", &sv);
+			nstr = strtok_r(NULL, " ", &sv); ost = strtok_r(NULL, " ", &sv);
+			path = strtok_r(NULL, " ", &sv);
+			if (!k || !nstr || !ost || !path ||
+			    kdump_get_addrxlat(k, &ctx, NULL) != KDUMP_OK) { printf("L-SETUP-FAILED\n"); continue; }
+			for (n = atoi(nstr); n > 0; --n)
+				if (!addrxlat_ctx_add_cb(ctx)) { printf("L-SETUP-FAILED\n"); break; }
+			fd = open(path, O_RDONLY);
+			st = fd < 0 ? KDUMP_ERR_SYSTEM : kdump_open_fd(k, fd);
+			printf("open=%d", (int)st);
+			if (st == KDUMP_OK && ost[0] != '-') {
+				attr.type = KDUMP_STRING; attr.val.string = ost;
+				printf(" ostype=%d", (int)kdump_set_attr(k, "addrxlat.ostype", &attr));
+			}
+			for (i = 0; i < sizeof akeys / sizeof akeys[0]; ++i) {
+				st = kdump_get_attr(k, akeys[i], &attr);
+				if (st != KDUMP_OK) printf(" %s=!%d", akeys[i], (int)st);
+				else if (attr.type == KDUMP_STRING) {
+					const char *c;
+					printf(" %s=\"", akeys[i]);
+					for (c = attr.val.string; *c; ++c) putchar(*c == ' ' ? '_' : *c);
+					putchar('"');
+				} else if (attr.type == KDUMP_NUMBER || attr.type == KDUMP_ADDRESS)
+					printf(" %s=%" PRIx64, akeys[i], (uint64_t)attr.val.number);
+				else printf(" %s=type%d", akeys[i], (int)attr.type);
+			}
+			{
+				addrxlat_ctx_t *c2; addrxlat_sys_t *s2;
+				st = kdump_get_addrxlat(k, &c2, &s2);
+				printf(" xlat=%d", (int)st);
+				if (st == KDUMP_OK) { addrxlat_ctx_decref(c2); addrxlat_sys_decref(s2); }
+			}
+			while ((a = strtok_r(NULL, " ", &sv))) {
+				unsigned char buf[8];
+				int as;
+				for (as = 0; as < 3; ++as) {
+					size_t len = sizeof buf;
+					memset(buf, 0, sizeof buf);
+					st = kdump_read(k, (kdump_addrspace_t)as, hx(a), buf, &len);
+					printf(" r%d:%s=%d:%zu:%02x%02x%02x%02x%02x%02x%02x%02x", as, a, (int)st, len,
+					       buf[0], buf[1], buf[2], buf[3], buf[4], buf[5], buf[6], buf[7]);
+				}
+			}
+			printf(" hooks=");
+			{
+				static const char *const nm1[] = { 0, 0, "cr3", "init_uts_ns", "list_head", 0, "phys_base" };
+				const addrxlat_cb_t *cb = addrxlat_ctx_get_cb(ctx);
+				int h;
+				for (h = 1; h < 7; ++h) {
+					addrxlat_addr_t v = 0;
+					long hs = 0;
+					switch (h) {
+					case 1: v = cb->read_caps(cb); break;
+					case 2: hs = cb->reg_value(cb, nm1[h], &v); break;
+					case 3: hs = cb->sym_value(cb, nm1[h], &v); break;
+					case 4: hs = cb->sym_sizeof(cb, nm1[h], &v); break;
+					case 5: hs = cb->sym_offsetof(cb, "list_head", "next", &v); break;
+					case 6: hs = cb->num_value(cb, nm1[h], &v); break;
+					}
+					printf("%s%ld:%" PRIx64, h > 1 ? "," : "", hs, (uint64_t)v);
+					addrxlat_ctx_clear_err(ctx);
+				}
+			}
+			putchar('\n');
+			addrxlat_ctx_decref(ctx);
+			kdump_free(k);
+			if (fd >= 0) close(fd);
+			continue;
+		}
 		if (line[0] == 'K') {
 			kdump_ctx_t *k = kdump_new();
 			addrxlat_sys_t *sys;
